@@ -178,6 +178,8 @@ pub struct MemoEntry {
     /// (key, hid, weak) of every node the underlying function ever made
     pub made: Vec<(i64, Hid, WeakIncr<i64>)>,
     pub fresh_flag: Rc<Cell<Option<Hid>>>,
+    /// Some((bind, run)): memoised inside that run of a bind closure (its nodes belong to that run)
+    pub local: Option<(Hid, u32)>,
 }
 
 /// Drop tokens: every closure given to the engine owns one; dropping the closure flips it.
